@@ -29,8 +29,11 @@ func checkExternal(v map[string]any, p tree.Path) error {
 	if !ok {
 		return nil
 	}
-	// with SkipInterpolation the schema-valid spelling `external: "true"` has not been cast to a boolean yet
-	if external, isBool := b.(bool); !isBool || !external {
+	external, err := asBoolean(b)
+	if err != nil {
+		return fmt.Errorf("%s.external: %w", p, err)
+	}
+	if !external {
 		return nil
 	}
 
@@ -47,4 +50,23 @@ func checkExternal(v map[string]any, p tree.Path) error {
 		}
 	}
 	return nil
+}
+
+// asBoolean reads `external` the way the loader converts it: a boolean, or (when interpolation is skipped the
+// value has not been cast yet) one of the YAML 1.1 boolean spellings the schema admits as a string.
+func asBoolean(v any) (bool, error) {
+	switch b := v.(type) {
+	case bool:
+		return b, nil
+	case string:
+		switch strings.ToLower(b) {
+		case "true", "y", "yes", "on":
+			return true, nil
+		case "false", "n", "no", "off":
+			return false, nil
+		}
+		return false, fmt.Errorf("invalid boolean: %s", b)
+	default:
+		return false, fmt.Errorf("invalid boolean: %v", v)
+	}
 }
